@@ -53,6 +53,10 @@ func (q queryServer) CalculationCreatePosition(ctx context.Context, req *types.Q
 	if err != nil {
 		return nil, err
 	}
+	if !currentSqrtPrice.IsPositive() {
+		// a pool without a position has no price yet (the first position sets it)
+		return nil, types.ErrEmptyLiquidity
+	}
 	var liquidityDelta math.LegacyDec
 	if req.Denom == pool.DenomBase {
 		liquidityDelta = types.LiquidityBase(amount, currentSqrtPrice, sqrtPriceUpperTick)
